@@ -299,6 +299,10 @@ func (n *NodeGroup) DeleteNodes(nodes ...*v1.Node) error {
 			return fmt.Errorf("failed to terminate instance. err: %v", err)
 		}
 		log.Debug(*result.Activity.Description)
+
+		// AWS has decremented the desired capacity; keep the cached value in step so that a
+		// scale up later in the same run is computed from the real target size
+		n.asg.DesiredCapacity = awsapi.Int64(n.TargetSize() - 1)
 	}
 
 	return nil
